@@ -25,7 +25,8 @@ from .c15 import designed_variants, MODULE
 
 LEVEL = "fault_enumeration"
 SHARDS = {"quick": 8, "thorough": 16}
-REQUIRED = ("crash_points_injected", "torn_writes_injected", "followers_after_crash_probed", "schedules_executed",
+REQUIRED = ("crash_points_injected", "torn_writes_injected", "followers_after_crash_probed", "followers_with_recycled_pid_probed",
+            "schedules_in_a_directory_without_cache_directory", "schedules_executed",
             "distinct_schedules", "concurrent_definitions_probed", "stress_definitions_probed", "crashes_during_rewrite",
             "schedules_with_different_declarations", "schedules_with_identical_declarations")
 MIN_NONTRIVIAL = 30
@@ -127,18 +128,37 @@ def crash_part(run, rng, pairs, scratch, stride):
                     run.violation("the definer crashed by itself (rc=%s): %s" % (first.rc, (first.stderr or "")[-200:]), witness, None)
                     return
                 run.case(key=("crash", v1.tag, pre, kind, i, b), nontrivial=first.status == "died")
-                # followers in fresh processes
-                for follower, label in ((v1, "same"), (v2, "different")):
-                    wd2 = wd + "_" + label
+                # followers in fresh processes; when the dead process left a private temporary file behind, also a
+                # follower that carries the dead process's ids (process ids are recycled)
+                followers = [(v1, "same", None), (v2, "different", None)]
+                ids = leftover_ids(wd)
+                if ids:
+                    followers += [(v1, "same, recycled pid", ids), (v2, "different, recycled pid", ids)]
+                for follower, label, pretend in followers:
+                    wd2 = wd + "_" + label.replace(" ", "").replace(",", "_")
                     shutil.copytree(wd, wd2)
-                    r = procs.run_child(procs.base_job(wd2, [follower.define_action(MODULE)], bytecode=not bc), wd2)
-                    w2 = dict(witness, follower=label, follower_source=follower.source, cache_after_crash=read_cache(wd))
-                    if not judge_define(run, r, follower, w2, "followers_after_crash_probed"):
+                    fh = {"mode": "log"}
+                    if pretend:
+                        fh["pretend_ids"] = pretend
+                    r = procs.run_child(procs.base_job(wd2, [follower.define_action(MODULE)], bytecode=not bc, hooks=fh), wd2)
+                    w2 = dict(witness, follower=label, follower_source=follower.source, cache_after_crash=read_cache(wd), follower_ids=pretend)
+                    if not judge_define(run, r, follower, w2, "followers_with_recycled_pid_probed" if pretend else "followers_after_crash_probed"):
                         return
                     shutil.rmtree(wd2, ignore_errors=True)
                 shutil.rmtree(wd, ignore_errors=True)
             shutil.rmtree(base, ignore_errors=True)
             shutil.rmtree(snap, ignore_errors=True)
+
+
+def leftover_ids(wd):
+    """(pid, thread id) in the name of a temporary file a dead definer left in the cache directory, if any."""
+    d = procs.cache_dir(wd)
+    if os.path.isdir(d):
+        for f in sorted(os.listdir(d)):
+            parts = f.split(".")
+            if f.endswith(".tmp") and len(parts) >= 4 and parts[-2].isdigit() and parts[-3].isdigit():
+                return [int(parts[-3]), int(parts[-2])]
+    return None
 
 
 def read_cache(wd):
@@ -161,12 +181,28 @@ def read_cache(wd):
 def one_schedule(run, scratch, sid, va, vb, pre, choices, default, vlate):
     wd = os.path.join(scratch, "s%d_%d" % (os.getpid(), sid))
     os.makedirs(wd)
+    if pre == "fresh-directory":
+        # two processes define the same declaration from one declaring file in a directory that has no cache
+        # directory yet: its existence test and its creation are scheduling points too
+        pre = None
+        assert va.tag == vb.tag
+        ja = procs.base_job(wd, [va.define_action(MODULE)], bytecode=bool(sid % 2), hooks={"gate_dirs": True})
+        jb = procs.base_job(wd, [vb.define_action(MODULE)], bytecode=bool((sid // 2) % 2), hooks={"gate_dirs": True})
+        with open(os.path.join(wd, MODULE + ".py"), "w") as f:
+            f.write(va.define_action(MODULE)["source"])
+        run.count("schedules_in_a_directory_without_cache_directory")
+        return _run_schedule(run, wd, sid, va, vb, pre, choices, default, vlate, ja, jb, fresh=True)
     if pre is not None:
         procs.run_child(procs.base_job(procs.private_view(wd, "pre"), [pre.define_action(MODULE)], bytecode=True), wd)
     ja = procs.base_job(procs.private_view(wd, "A"), [va.define_action(MODULE)], bytecode=bool(sid % 2))
     jb = procs.base_job(procs.private_view(wd, "B"), [vb.define_action(MODULE)], bytecode=bool((sid // 2) % 2))
+    return _run_schedule(run, wd, sid, va, vb, pre, choices, default, vlate, ja, jb)
+
+
+def _run_schedule(run, wd, sid, va, vb, pre, choices, default, vlate, ja, jb, fresh=False):
     ra, rb, trace, decisions = procs.run_schedule(ja, jb, wd, choices, default)
-    witness = {"scenario": "schedule", "A": va.tag, "B": vb.tag, "pre_seeded_with": pre.tag if pre else None, "schedule": trace,
+    witness = {"scenario": "schedule" if not fresh else "schedule in a directory without a cache directory", "A": va.tag, "B": vb.tag,
+               "pre_seeded_with": pre.tag if pre else None, "schedule": trace,
                "source_A": va.source, "source_B": vb.source}
     ok = True
     if ra.status == "timeout" or rb.status == "timeout":
@@ -178,11 +214,11 @@ def one_schedule(run, scratch, sid, va, vb, pre, choices, default, vlate):
         run.count("schedules_with_identical_declarations" if va.tag == vb.tag else "schedules_with_different_declarations")
         key = common.stable_hash(trace)
         run.cover("distinct_schedules_set", key)
-        run.case(key=("sched", va.tag, vb.tag, pre.tag if pre else None, key), nontrivial=True)
+        run.case(key=("sched", va.tag, vb.tag, pre.tag if pre else ("fresh" if fresh else None), key), nontrivial=True)
         ok = judge_define(run, ra, va, dict(witness, process="A"), "concurrent_definitions_probed") and \
             judge_define(run, rb, vb, dict(witness, process="B"), "concurrent_definitions_probed")
         if ok:
-            late = procs.run_child(procs.base_job(procs.private_view(wd, "late"), [vlate.define_action(MODULE)], bytecode=True), wd)
+            late = procs.run_child(procs.base_job(wd if fresh else procs.private_view(wd, "late"), [vlate.define_action(MODULE)], bytecode=True), wd)
             ok = judge_define(run, late, vlate, dict(witness, process="late definer of %s" % vlate.tag), "late_definitions_probed")
     shutil.rmtree(wd, ignore_errors=True)
     return ok, decisions
@@ -198,6 +234,7 @@ def schedule_part(run, rng, variants, scratch, quick):
         (v["i2i1"], v["i2i1"], v["i1i2"]),
         (v["i1i2-unpackonly"], v["i2i1-unpackonly"], None),     # declarations that differ only in their generated unpack code
         (v["i1i2-packonly"], v["i2i1-packonly"], None),         # ... only in their generated pack code
+        (v["i1i2"], v["i1i2"], "fresh-directory"),
     ]
     sid = 0
     if quick:
@@ -229,8 +266,9 @@ def schedule_part(run, rng, variants, scratch, quick):
                 stack.append(prefix + [0] * (i - len(prefix)) + [1])
             if not ok and run.counters["violations"] > 5:
                 return
-        run.extra.setdefault("dfs_schedules", {})["%s|%s|%s" % (va.tag, vb.tag, pre.tag if pre else None)] = done
-        run.extra.setdefault("dfs_exhausted", {})["%s|%s|%s" % (va.tag, vb.tag, pre.tag if pre else None)] = not stack
+        ptag = pre if isinstance(pre, str) else (pre.tag if pre else None)
+        run.extra.setdefault("dfs_schedules", {})["%s|%s|%s" % (va.tag, vb.tag, ptag)] = done
+        run.extra.setdefault("dfs_exhausted", {})["%s|%s|%s" % (va.tag, vb.tag, ptag)] = not stack
     for n in range(1000 // nshards):
         va, vb, pre = scenarios[n % len(scenarios)]
         sid += 1
